@@ -110,8 +110,28 @@ def feasible_with_x_fixed(X, x):
                     return False
                 i += co.len
             return True
+        # rows of '0' / '+' blocks that do not involve the auxiliary columns are decided here (ECOS crashes on empty rows)
+        Aaux = np.asarray(A[:, n:], dtype=float)
+        keep_rows, K2, i = [], [], 0
+        for co in K:
+            rows = list(range(i, i + co.len))
+            i += co.len
+            if co.type in ('0', '+'):
+                live = [r for r in rows if np.any(Aaux[r, :] != 0)]
+                for r in rows:
+                    if r not in live:
+                        if (co.type == '0' and abs(base[r]) > 1e-9) or (co.type == '+' and base[r] < -1e-9):
+                            return False
+                if live:
+                    keep_rows += live
+                    K2.append(cl.Cone(co.type, len(live)))
+            else:
+                keep_rows += rows
+                K2.append(cl.Cone(co.type, co.len))
+        if not keep_rows:
+            return True
         aux = cl.Variable(shape=(naux,), name='aux')
-        prob = cl.Problem(cl.MIN, cl.Expression([0]), [cl.PrimalProductCone(A[:, n:] @ aux + base, K)])
+        prob = cl.Problem(cl.MIN, cl.Expression([0]), [cl.PrimalProductCone(Aaux[keep_rows, :] @ aux + base[keep_rows], K2)])
         try:
             st, val = prob.solve(verbose=False)
         except Exception:
@@ -166,6 +186,74 @@ def oracle_domain(rng, n, gts, eqs):
             if sf < float(y @ xa) - 1e-5 * (1 + abs(float(y @ xa))):
                 return 'suppfunc(%s)=%r is below y.x=%r at the member x=%s' % (y.tolist(), sf, float(y @ xa), x), None
     return None, ('domain', '')
+
+
+def oracle_poly_domain(rng):
+    """PolyDomain inferred from polynomial constraints (cross terms, odd terms, coordinates that no constraint mentions): every real
+    point satisfying ALL constraints has log|x| in the conic data, and the three descriptions agree on the kept constraints"""
+    import sageopt as so
+    from sageopt.relaxations import sage_polys as sp
+    n = rng.randint(2, 3)
+    x = so.standard_poly_monomials(n)
+    free = rng.choice([None, None, n - 1, 0])          # a coordinate that no constraint mentions
+    idx = [i for i in range(n) if i != free]
+    gts, desc = [], []
+    for _ in range(rng.randint(1, 3)):
+        i, j = rng.choice(idx), rng.choice(idx)
+        kind = rng.choice(['ball1', 'cross_even', 'cross_odd', 'lower', 'posy', 'odd'])
+        r = float(rng.choice([1, 4, 9]))
+        if kind == 'ball1':
+            g = r - x[i] ** 2
+        elif kind == 'cross_even':
+            g = r - x[i] ** 2 * x[j] ** 2 if i != j else r - x[i] ** 4
+        elif kind == 'cross_odd':
+            g = 1 - x[i] * x[j] if i != j else 1 - x[i] ** 3      # even total degree when i != j, but not an even polynomial
+        elif kind == 'lower':
+            g = x[i] ** 2 - 0.25
+        elif kind == 'posy':
+            g = r + 1 - x[i] ** 2 - (x[j] ** 4 if i != j else x[i] ** 4)
+        else:
+            g = x[i] + 2.0
+        gts.append(g)
+        desc.append((kind, i, j, r))
+    eqs = []
+    if rng.random() < 0.3 and len(idx) >= 2:
+        eqs.append(x[idx[0]] ** 2 * x[idx[1]] ** 2 - 1.0)
+        desc.append(('eq_prod', idx[0], idx[1], 1.0))
+    with warnings.catch_warnings():
+        warnings.simplefilter('ignore')
+        try:
+            X = sp.infer_domain(x[0], gts, eqs)
+        except RuntimeError as e:
+            return None, ('raise', str(desc))
+    if X is None:
+        return None, ('none', str(desc))
+    vals = [0.5, -0.5, 1.0, -1.0, 1.5, -2.0, 2.0, -3.0, 3.0, 0.25, 10.0, -10.0]
+    for _ in range(60):
+        pt = np.array([rng.choice(vals) for _ in range(n)])
+        if eqs and rng.random() < 0.7:      # put the point on the equation x_a^2 x_b^2 = 1
+            pt[idx[1]] = rng.choice([1.0, -1.0]) / pt[idx[0]]
+        gv = [float(g(pt)) for g in gts]
+        hv = [float(h(pt)) for h in eqs]
+        kg = [float(g(pt)) for g in X.gts]
+        kh = [float(h(pt)) for h in X.eqs]
+        if any(0 < abs(v) < 1e-6 for v in gv + hv + kg + kh) or any(v == 0 for v in gv + kg):
+            continue
+        all_ok = all(v > 0 for v in gv) and all(v == 0 for v in hv)
+        kept_ok = all(v > 0 for v in kg) and all(v == 0 for v in kh)
+        member = X.check_membership(pt, 1e-9)
+        conic = feasible_with_x_fixed(X, np.log(np.abs(pt)).tolist())
+        if conic is None:
+            conic = kept_ok
+        where = 'constraints %s, x=%s' % (desc, pt.tolist())
+        if all_ok and not (member and conic):
+            return ('x satisfies every given polynomial constraint but log|x| is reported outside X (check_membership=%s, conic data=%s); %s'
+                    % (member, conic, where)), None
+        if member != kept_ok:
+            return 'check_membership=%s disagrees with the kept constraints (%s); %s' % (member, kept_ok, where), None
+        if conic != kept_ok:
+            return 'the conic data (A, b, K) say %s for log|x|, the kept convexifiable constraints say %s; %s' % (conic, kept_ok, where), None
+    return None, ('domain', str(desc))
 
 
 def oracle_empty():
@@ -254,12 +342,29 @@ def run(ctx):
             model_out = vlib.coq_show(HEADER, 'model %s' % cases[idx][1])
             ctx.problem('correspondence', 'suite infer_domain: model and implementation disagree on %s; impl=%s model=%s'
                         % (cases[idx][0], cases[idx][2][:900], model_out[:900]), inputs=cases[idx][0], failing_input_found=False)
+    npoly = 0
+    for _ in range(ctx.n(40, 400)):
+        why, info = oracle_poly_domain(ctx.rng)
+        npoly += 1
+        ctx.evaluations += 1
+        if info:
+            ctx.count('poly_domain', info[0])
+            if info[0] == 'domain':
+                ctx.nontrivial.add(vlib.sha(['poly', info[1]]))
+        if why:
+            ctx.problem('oracle', 'property fails on the implementation: ' + why, inputs={'suite': 'poly_domain'}, failing_input_found=True)
+            break
+    ctx.suites['poly_domain'] = {'cases': npoly}
     why = oracle_empty()
     if why:
         ctx.problem('oracle', why, inputs={'suite': 'emptiness'}, failing_input_found=True)
 
 
 def search(ctx):
+    for _ in range(150):
+        why, _ = oracle_poly_domain(ctx.rng)
+        if why:
+            return {'suite': 'poly_domain', 'property_failure': why}
     for _ in range(120):
         n = ctx.rng.randint(1, 2)
         gts = [gen_con(ctx.rng, n) for _ in range(ctx.rng.randint(0, 3))]
